@@ -255,7 +255,7 @@ def _work(lines):
 def _merge_findings(ck):
     f = core.VERIF / "findings.d" / f"{PID}.json"
     if f.exists():
-        have = {k["id"] for k in ck._known}
+        have = {k["id"] for k in core.load_known()} | {k["id"] for k in ck._known}  # known_findings.json wins
         for e in json.loads(f.read_text()):
             if e.get("property") == PID and e.get("status") == "open" and e["id"] not in have:
                 ck._known.append(e)
